@@ -29,6 +29,12 @@ theorem adts_roundtrip (a : ADTS) (h : AdtsDom a) (junk tail : Bytes) (hj : IsBy
     decodeADTS (junk ++ encodeADTS a ++ tail) = .ok (a, (junk.length : Int)) :=
   Aac.adts_roundtrip a h junk tail hj ht hl hns
 
+/-- **the search window is the first 188 bytes**: behind 188 junk bytes that contain no 0xff the decoder reports that
+    there is no sync word, whatever follows (also a well-formed header): the bound 187 of `adts_roundtrip` is tight -/
+theorem adts_window_tight (junk rest : Bytes) (hl : junk.length = 188) (hb : ∀ b ∈ junk, b < 255) :
+    decodeADTS (junk ++ rest) = .error .noSync :=
+  Aac.adts_beyond_window junk rest hl hb
+
 /-! non-vacuity -/
 example : AscDom ⟨29, 1, 22050, 44100, true, true⟩ := by simp [AscDom]
 example : AscDom ⟨2, 15, 12345, 0, false, false⟩ := by simp [AscDom]
